@@ -543,7 +543,8 @@ class Prop:
                "list_assign", "list_setslice", "list_bad", "dict_set", "dict_pop", "dict_update",
                "set_add", "set_discard", "event", "prop_set", "deleg_set", "del_any", "read",
                "validator_raises", "handler_raises", "readonly", "readonly_again", "trait_set",
-               "setq", "add_trait_set", "clone_drop", "pickle_drop", "default_read", "tuple_set"]
+               "setq", "add_trait_set", "clone_drop", "pickle_drop", "default_read", "tuple_set",
+               "tuple_convert", "tuple_convert", "union_set", "either_set", "instance_set"]
 
     def gen_ref(self, seed):
         r = stream(seed, "ref")
@@ -587,6 +588,8 @@ class Prop:
                 "l": T.List(T.Any()), "li": T.List(T.Int()), "d": T.Dict(T.Str, T.Any()),
                 "st": T.Set(T.Any()), "ev": T.Event(), "cv": CV(), "p": T.Property(),
                 "ro": T.ReadOnly, "tp": T.Tuple(T.Any(), T.Int()),
+                "tc": T.Tuple(T.Float(), T.Any(), T.Any()), "un": T.Union(T.Int(), T.Any()),
+                "ei": T.Either(T.Str(), T.Instance(Sent)), "ins": T.Instance(Sent),
                 "partner": T.Instance(T.HasTraits), "dv": T.DelegatesTo("partner", prefix="a2"),
                 "a2": T.Any(),
                 "_get_p": _get_p, "_set_p": _set_p, "_a_changed": h_static,
@@ -747,6 +750,26 @@ class Prop:
                     sut(getattr, o, "li")
                     sut(getattr, o, "st")
                     sut(getattr, o, "tp")
+                elif k == "tuple_convert":
+                    # an int where a Float is expected: the validator builds a new tuple
+                    _, e = sut(setattr, o, "tc", (1 + op["n"], s, s))
+                    if e is None:
+                        hold((oi, "tc"), [j, j])
+                    _, e2 = sut(setattr, o, "tc", ("x", s, s))
+                elif k == "union_set":
+                    _, e = sut(setattr, o, "un", s)
+                    if e is None:
+                        hold((oi, "un"), [j])
+                elif k == "either_set":
+                    _, e = sut(setattr, o, "ei", s)
+                    if e is None:
+                        hold((oi, "ei"), [j])
+                    _, e2 = sut(setattr, o, "ei", 5)
+                elif k == "instance_set":
+                    _, e = sut(setattr, o, "ins", s)
+                    if e is None:
+                        hold((oi, "ins"), [j])
+                    _, e2 = sut(setattr, o, "ins", "no")
                 elif k == "tuple_set":
                     _, e = sut(setattr, o, "tp", (s, 1))
                     if e is None:
